@@ -219,9 +219,20 @@ func newNode(kind string, mode string) (n *node, err error) {
 	return n, nil
 }
 
+// close stops everything; a component that does not stop within 5 s (e.g. a consensus state
+// whose receive routine died) is abandoned instead of hanging the check.
 func (n *node) close() {
 	for i := len(n.stop) - 1; i >= 0; i-- {
-		n.stop[i]()
+		done := make(chan struct{})
+		go func(f func()) {
+			defer func() { recover(); close(done) }() //nolint
+			f()
+		}(n.stop[i])
+		select {
+		case <-done:
+		case <-time.After(5 * time.Second):
+			note("close-timeout")
+		}
 	}
 }
 
@@ -389,7 +400,7 @@ func oracleReactor(c core.Case, out []string) []core.Finding {
 		if verb == "reactor" {
 			kind = m["kind"]
 		}
-		if verb == "rmsg" {
+		if verb == "rmsg" && o == "ok" {
 			lastKind = m["kind"]
 		}
 		switch {
